@@ -7,6 +7,7 @@ census, H1/H2.
 """
 from __future__ import annotations
 
+import copy
 import itertools
 
 from rt import gen, hooks
@@ -45,6 +46,7 @@ NEAR = gen.NEAR_NUMBERS
 def plan(tier, seed):
     specs = [{"kind": "table", "ops": [op]} for op in OPS]
     specs.append({"kind": "directed"})
+    specs.append({"kind": "twin-constants"})
     n = 9 if tier == "quick" else 41
     per = 2500 if tier == "quick" else 9000
     for i in range(n):
@@ -81,6 +83,38 @@ def run(spec, ctx):
     install()
     r = ctx.rng
     kind = spec["kind"]
+    if kind == "twin-constants":
+        # two (or three) comparisons side by side in one filter whose constant sides differ only by a literal that Python's ==
+        # cannot tell apart (1 / 1.0 / true, 0 / 0.0 / false): each is a comparison of its own - whatever an implementation
+        # shares between sub-expressions that look alike, a boolean is never a number
+        def sq(root, *ns):
+            return ["sq", ["q", root, [["child", [["name", n]]] for n in ns]]]
+        pairs = ((1, True), (True, 1), (0, False), (False, 0), (False, 0.0), (1.0, True), (1, 1.0), (None, 0), ("1", 1), (True, "true"), (0, None))
+        for la, lb in pairs:
+            for op in ("==", "!=", "<=", ">=", "<"):
+                for shape in ("or", "and", "or-with-current", "function"):
+                    A, B = ["cmp", op, sq("$", "mode"), ["lit", la]], ["cmp", op, sq("$", "mode"), ["lit", lb]]
+                    if shape == "or":
+                        e = ["or", A, B]
+                    elif shape == "and":
+                        e = ["and", A, B]
+                    elif shape == "or-with-current":
+                        e = ["or", ["paren", ["and", A, ["cmp", "==", sq("@", "a"), ["lit", 1]]]], ["paren", ["and", B, ["cmp", "==", sq("@", "a"), ["lit", 2]]]]]
+                    else:
+                        e = ["or", ["cmp", op, ["call", "value", [["nodes", ["q", "$", [["child", [["name", "mode"]]]]]]]], ["lit", la]], ["cmp", op, ["call", "value", [["nodes", ["q", "$", [["child", [["name", "mode"]]]]]]]], ["lit", lb]]]
+                    for seg in ("child", "desc"):
+                        ast = ["q", "$", [["child", [["name", "items"]]], [seg, [["filter", e]]]]]
+                        for x in (1, True, 0, False, 1.0, 0.0, None, "1", "true", 2):
+                            doc = {"mode": x, "items": [{"a": 1}, {"a": 2}, {"a": 3}]}
+                            for flip in (False, True):
+                                a2 = copy.deepcopy(ast)
+                                if flip:
+                                    f = a2[2][1][1][0][1]
+                                    if f[0] in ("or", "and") and f[1][0] == "cmp":
+                                        f[1], f[2] = f[2], f[1]
+                                check_query_case(ctx, a2, doc, Renderer(r, blanks=0.1).top(a2), "twin-constants", nontrivial=True)
+                    ctx.cell("twin_constants", "%s %s" % (op, shape))
+        return
     if kind == "table":
         rr = Renderer(r, blanks=0.2)
         n = 0
